@@ -154,3 +154,134 @@ Theorem C19_llist_alloc_fail_atomic : forall h s o, ll_inv h s -> ll_is_failing_
             (r = RSkip \/ r = RNode None \/ r = RList None).
 Proof. exact ll_step_alloc_fail_atomic. Qed.
 Print Assumptions C19_llist_alloc_fail_atomic.
+
+(* ---- skip list (ares_slist.c): coq/Dsa/SList.v, SList_heap.v, SList_proofs.v ---- *)
+From CAres.Dsa Require Import SList SList_proofs.
+
+(* main statement: for every comparison callback whose sign is a total preorder and every
+   operation sequence (every level choice, every allocator answer), a whole life of the model
+   (create, the operations, destroy) yields exactly the results of the sorted-list specification,
+   in particular it is never UB and never runs out of fuel *)
+Theorem C19_slist_refines :
+  forall (D : Type) (cmp : D -> D -> Z),
+    (forall a b : D, (cmp a b > 0)%Z <-> (cmp b a < 0)%Z) ->
+    (forall a b c : D, (cmp a b <= 0)%Z -> (cmp b c <= 0)%Z -> (cmp a c <= 0)%Z) ->
+    forall ops : list (sl_op D), sl_life_model cmp ops = Ok (sl_life_spec cmp ops).
+Proof. exact @sl_life_refines. Qed.
+Print Assumptions C19_slist_refines.
+
+Theorem C19_slist_never_ub :
+  forall (D : Type) (cmp : D -> D -> Z),
+    (forall a b : D, (cmp a b > 0)%Z <-> (cmp b a < 0)%Z) ->
+    (forall a b c : D, (cmp a b <= 0)%Z -> (cmp b c <= 0)%Z -> (cmp a c <= 0)%Z) ->
+    forall ops : list (sl_op D),
+      is_ub (sl_life_model cmp ops) = false /\ sl_life_model cmp ops <> Err OutOfFuel.
+Proof. exact @sl_life_never_ub. Qed.
+Print Assumptions C19_slist_never_ub.
+
+(* after any operation sequence: first/next... yields the specification list, last/prev... its
+   reverse, len its length; it is sorted by cmp and holds every node at most once *)
+Theorem C19_slist_sorted_stable :
+  forall (D : Type) (cmp : D -> D -> Z),
+    (forall a b : D, (cmp a b > 0)%Z <-> (cmp b a < 0)%Z) ->
+    (forall a b c : D, (cmp a b <= 0)%Z -> (cmp b c <= 0)%Z -> (cmp a c <= 0)%Z) ->
+    forall ops : list (sl_op D),
+    exists (s0 : slist D) (rs : list (sl_res D)) (s : slist D),
+      sl_create true true = Some s0 /\
+      sl_run_model cmp s0 ops = Ok (rs, s) /\
+      (let l := sp_l (snd (sl_run_spec cmp sl_spec_create ops)) in
+       sl_walk_fwd s = Ok l /\ sl_walk_bwd s = Ok (rev l) /\ sl_len s = length l /\
+       sl_sorted cmp (map snd l) /\ NoDup (map fst l)).
+Proof. exact @sl_sorted_stable. Qed.
+Print Assumptions C19_slist_sorted_stable.
+
+(* nothing lost or duplicated: the specification's insert adds exactly the new element, its
+   removal takes out exactly the named node *)
+Theorem C19_slist_insert_adds_one :
+  forall (D : Type) (cmp : D -> D -> Z) (x : nat * D) (l : list (nat * D)),
+    Permutation (sl_spec_ins cmp x l) (x :: l).
+Proof. exact @sl_spec_ins_perm. Qed.
+Print Assumptions C19_slist_insert_adds_one.
+
+Theorem C19_slist_remove_takes_one :
+  forall (D : Type) (l : list (nat * D)) (n : nat) (d : D),
+    NoDup (map fst l) -> In (n, d) l -> Permutation l ((n, d) :: sl_spec_remove n l).
+Proof. exact @sl_spec_remove_perm. Qed.
+Print Assumptions C19_slist_remove_takes_one.
+
+(* the tie rule of the C code: a new element goes after all strictly smaller elements and BEFORE
+   all elements that are equal or larger *)
+Theorem C19_slist_insert_position :
+  forall (D : Type) (cmp : D -> D -> Z),
+    (forall a b c : D, (cmp a b <= 0)%Z -> (cmp b c <= 0)%Z -> (cmp a c <= 0)%Z) ->
+    forall (x : nat * D) (sp : list (nat * D)),
+      sl_sorted cmp (map snd sp) ->
+      exists Pl Sl : list (nat * D),
+        sp = Pl ++ Sl /\ sl_spec_ins cmp x sp = Pl ++ x :: Sl /\
+        (forall e : nat * D, In e Pl -> (cmp (snd x) (snd e) > 0)%Z) /\
+        (forall e : nat * D, In e Sl -> (cmp (snd x) (snd e) <= 0)%Z).
+Proof. exact @sl_spec_ins_split. Qed.
+Print Assumptions C19_slist_insert_position.
+
+(* find returns the first element (in first/next order) that compares equal to the probe, and
+   NULL exactly when there is none *)
+Theorem C19_slist_find_first :
+  forall (D : Type) (cmp : D -> D -> Z),
+    (forall a b : D, (cmp a b > 0)%Z <-> (cmp b a < 0)%Z) ->
+    (forall a b c : D, (cmp a b <= 0)%Z -> (cmp b c <= 0)%Z -> (cmp a c <= 0)%Z) ->
+    forall (ops : list (sl_op D)) (v : D),
+    exists (s0 : slist D) (rs : list (sl_res D)) (s : slist D) (l : list (nat * D)),
+      sl_create true true = Some s0 /\
+      sl_run_model cmp s0 ops = Ok (rs, s) /\
+      sl_walk_fwd s = Ok l /\
+      (exists r : option nat,
+         sl_node_find cmp s v = Ok r /\
+         match r with
+         | Some f =>
+             exists (A : list (nat * D)) (d : D) (B : list (nat * D)),
+               l = A ++ (f, d) :: B /\ cmp v d = 0%Z /\
+               (forall e : nat * D, In e A -> cmp v (snd e) <> 0%Z)
+         | None => forall e : nat * D, In e l -> cmp v (snd e) <> 0%Z
+         end).
+Proof. exact @sl_find_first. Qed.
+Print Assumptions C19_slist_find_first.
+
+(* first = minimum *)
+Theorem C19_slist_first_minimum :
+  forall (D : Type) (cmp : D -> D -> Z),
+    (forall a b : D, (cmp a b > 0)%Z <-> (cmp b a < 0)%Z) ->
+    (forall a b c : D, (cmp a b <= 0)%Z -> (cmp b c <= 0)%Z -> (cmp a c <= 0)%Z) ->
+    forall ops : list (sl_op D),
+    exists (s0 : slist D) (rs : list (sl_res D)) (s : slist D) (l : list (nat * D)),
+      sl_create true true = Some s0 /\
+      sl_run_model cmp s0 ops = Ok (rs, s) /\
+      sl_walk_fwd s = Ok l /\
+      sl_first_val s = Ok (option_map snd (hd_error l)) /\
+      (forall d : D, option_map snd (hd_error l) = Some d ->
+                     forall e : nat * D, In e l -> (cmp d (snd e) <= 0)%Z).
+Proof. exact @sl_first_minimum. Qed.
+Print Assumptions C19_slist_first_minimum.
+
+(* the coin flips are unobservable: two operation sequences that differ only in the level
+   choices give the same results (as long as the head-array reallocation, the one allocation
+   whose occurrence depends on the levels, is not made to fail) *)
+Theorem C19_slist_level_choice_irrelevant :
+  forall (D : Type) (cmp : D -> D -> Z),
+    (forall a b : D, (cmp a b > 0)%Z <-> (cmp b a < 0)%Z) ->
+    (forall a b c : D, (cmp a b <= 0)%Z -> (cmp b c <= 0)%Z -> (cmp a c <= 0)%Z) ->
+    forall ops ops' : list (sl_op D),
+      map sl_op_erase ops = map sl_op_erase ops' ->
+      Forall sl_op_head_ok ops -> Forall sl_op_head_ok ops' ->
+      sl_life_model cmp ops = sl_life_model cmp ops'.
+Proof. exact @sl_level_choice_irrelevant. Qed.
+Print Assumptions C19_slist_level_choice_irrelevant.
+
+(* an operation through a pointer to a released node is an explicit UB of the model *)
+Theorem C19_slist_dead_node_is_ub :
+  forall (D : Type) (s : slist D) (n : nat),
+    sl_is_live s n = false ->
+    sl_node_claim s n = UB UseAfterFree /\ sl_node_next s n = UB UseAfterFree /\
+    sl_node_prev s n = UB UseAfterFree /\ sl_node_val s n = UB UseAfterFree /\
+    sl_node_pop s n = UB UseAfterFree.
+Proof. exact @sl_dead_node_is_ub. Qed.
+Print Assumptions C19_slist_dead_node_is_ub.
